@@ -43,6 +43,30 @@ CHECKS = {
    "Real run_internet / run_internet_with_timeout / Machine::start / Shutdown with harness applications that are slow to initialise, send as early as the contract allows, request shutdown early/late/simultaneously with distinct statuses or never return; barrier order by the global event counter, status = first request in event order, timeout bound in virtual time.",
    "Initialisation of built-in protocols is not observable; the barrier is checked against the harness applications' initialisation events.",
    "deterministic simulation: seeded task orders of initialisation and shutdown on virtual time"),
+ "C14": ("E2 netsim + direct-drive", "exploration", "6 C14",
+   "Simulation clause: a live network (marked UDP, a TCP socket stream, ARP, DNS and DHCP exchanges) while the frame hook adds damaged copies of frames in flight and an attacker machine injects raw frames; every candidate is classified with the real decoders and only frames that fail at IPv4/UDP/TCP/ARP/DNS/DHCP level are used; oracle: the run ends as scripted (no panic-exit), applications see only intact legitimate payloads, the TCP stream and the DNS/DHCP exchanges are unaffected. Direct-drive clause: every decoder and the NDL parser on mutated inputs must return Ok/Err without unwinding.",
+   "Checksums are compiled out in this build, so only structural damage is detectable; damage that still decodes is ordinary traffic and not asserted on. The decoder/parser clause has no schedule in it and is reported as direct-drive.",
+   "deterministic simulation: fault injection of undecodable frames into a live simulated network; direct-drive decoder inputs reported separately"),
+ "C15": ("E2 netsim + direct-drive", "exploration", "6 C15",
+   "Simulation clause: real DhcpServer/DhcpClient with a pool sized to the holders, up to 12 simultaneous real clients and harness clients that release and rejoin, under frame delays, bounded duplication and task-order perturbation; a wire monitor follows Ack/Release frames in event order. Direct-drive clause: IpGenerator histories (block/fetch/return, all constructors, pools touching 0.0.0.0 and 255.255.255.255) against an interval-set model.",
+   "No loss (the protocol has no retransmission); the generator clause has no schedule in it and is reported as direct-drive.",
+   "deterministic simulation: seeded message orderings and duplication of DHCP exchanges; direct-drive generator histories reported separately"),
+ "C16": ("E2 netsim", "exploration", "6 C16",
+   "Generated topologies of 1..4 ArpRouter machines joining subnets in lines, stars and rings with correct, missing, looping, host-specific and default routes; the expected (network, TTL) sequence of every datagram comes from the harness's own longest-prefix match and is compared with the frames seen on every network; delivery to the destination host only; loops end by TTL and the networks fall silent.",
+   "No loss/duplication faults (the statement is about forwarding); frame delays and task orders are seeded.",
+   "deterministic simulation: seeded topologies, frame delays and task orders with reference forwarding model"),
+ "C18": ("E2 netsim (compute_checksum build)", "exploration", "6 C18",
+   "Second build of the harness with elvis-core/compute_checksum: every packet emitted by an Elvis machine is verified by an independent RFC 1071 implementation; a foreign stack (etherparse) sends datagrams and runs a TCP connection against the Elvis listener, forcing checksums of 0x0000 with balance bytes; the frame hook replaces frames by versions with one or two detectable bit flips, which must never be delivered.",
+   "A UDP checksum that a flip turns into 0x0000 means 'not computed' and is not counted as detectable.",
+   "deterministic simulation: fault injection (bit flips) and foreign-stack interop in a second build configuration"),
+ "C19": ("E2 netsim + direct-drive", "exploration", "6 C19",
+   "Simulation clause: generated runnable descriptions executed by generate_and_run_sim on virtual time under seeded frame delays and task orders; the run must end Exited and every described message must have been on the wire to the described receiver. Direct-drive clause: parse(render(tree)) == tree for tab / 4-space / CRLF renderings, twice in a row, and 8 kinds of structural mutation must be rejected.",
+   "forward and ping_pong applications are covered by the parse clause only; values contain neither a bare quote/backslash nor ']'. The parse clause has no schedule in it and is reported as direct-drive.",
+   "deterministic simulation of generated descriptions; direct-drive parser round trip reported separately"),
+ "C20": ("E2 netsim", "exploration", "6 C20",
+   "Real DnsServer/DnsClient over datagram sockets: generated record sets, 1..6 clients with sequential lookups (repeats exercise the cache) running concurrently, frame delays up to 300 ms and task-order perturbation of the responder tasks; returned address = registered address, responses echo id and name of the query of that socket, cached lookups put no frame on the network.",
+   "Names fit the server's fixed 80-byte read; no loss (the client has no retry); num_connections is set to the exact number of network lookups.",
+   "deterministic simulation: seeded frame delays and task orders with wire monitor"),
 }
 
 NOT_APPLICABLE = {
@@ -52,8 +76,7 @@ NOT_APPLICABLE = {
  "C10": "fragmentation::fragment is a pure function of (header, payload, MTU); an MTU chain is function composition (DESIGN.md section 6).",
 }
 
-PENDING = {k: "not claimed yet: its simulation check is still under construction in /verif/harness (see DESIGN.md section 6); no verdict is offered"
-           for k in ["C02","C04","C05","C06","C11","C13","C14","C15","C16","C18","C19","C20"] if k not in CHECKS}
+PENDING = {}
 
 def main():
     import os
